@@ -51,6 +51,19 @@ func (c *Ctx) Mine(idx int) bool {
 	return idx%c.NShards == c.Shard
 }
 
+// DiskDir is like TempDir but on the disk-backed scratch file system (ext4 here: inode
+// numbers are reused quickly, unlike on tmpfs), if the driver provided one.
+func (c *Ctx) DiskDir(name string) string {
+	base := os.Getenv("VERIF_DISKWORK")
+	if base == "" {
+		return c.TempDir(name)
+	}
+	d := filepath.Join(base, fmt.Sprintf("%s-%d-%s", c.Prop, c.Shard, name))
+	os.RemoveAll(d)
+	os.MkdirAll(d, 0755)
+	return d
+}
+
 func (c *Ctx) TempDir(name string) string {
 	d := filepath.Join(c.Work, fmt.Sprintf("%s-%d-%s", c.Prop, c.Shard, name))
 	os.RemoveAll(d)
